@@ -30,6 +30,9 @@ CHECKS = {
     'C01': dict(category='exploration', technique='exhaustive enumeration of non-recursive grammars (all rule shapes up to a bound x label sharing x domain sizes x weight deviations x semiring/dtype/method) against an exact rational evaluation of the definition',
                 text='Every single-rule grammar over all right-hand-side shapes up to isomorphism (<=3 nodes/<=3 edges, hub shapes with up to 5 edges, two node labels), every sharing pattern of terminal factors, domain sizes 1-3, generic prime weights under the full semiring x dtype x method cross product and every single-entry deviation to 0/inf/1, plus every grammar of a bounded multi-nonterminal family, is evaluated by the real sum_product / sum_products / singleton_fgg and compared entrywise with the definition evaluated in exact rationals (0*inf=0).',
                 note='Trusted: the plain-Python rational evaluator (mc.oracles.eval_nonrec). Float results compared with the tolerance policy of DESIGN 1.2. Bounds in evidence.', design='3/C01'),
+    'C04': dict(category='exploration', technique='exhaustive enumeration of rule shapes / grammar families / recursive templates x weightings x all start assignments against an exact max-times Kleene oracle; harness-side structural validation of the derivation',
+                text='For every grammar of the bounded families (all single-rule shapes up to 3 nodes / 3 edges in two node orders, a multi-nonterminal family, eight recursive templates with all weightings over {0,1/4,1/2,1,2}) and every start assignment with a finite, attained optimum, the real viterbi() result is validated structurally by harness code and its weight (from the rule instances and from derive()) compared with the exact optimum and with the Viterbi-semiring sum_product.',
+                note='Trusted: exact max-times Kleene iteration (mc.oracles). One known finding (K01: tie through a weight-one cycle makes reconstruct recurse forever) is matched by signature and reported as KNOWN-FINDING.', design='3/C04'),
 }
 
 ALL = ['C%02d' % i for i in range(1, 21)]
